@@ -574,6 +574,15 @@ func arrayHasNext(dec *jsontext.Decoder) (bool, error) {
 	return k != ']', err
 }
 
+// objectHasNext reports whether another member follows in the JSON object
+// currently being decoded, or the error that prevents finding that out.
+// Otherwise, a caller-specified function for the type of a map key would be
+// called for a member name that could not even be peeked at.
+func objectHasNext(dec *jsontext.Decoder) (bool, error) {
+	k, err := peekKind(dec)
+	return k != '}', err
+}
+
 var stringsPools = &sync.Pool{New: func() any { return new(stringSlice) }}
 
 type stringSlice []string
